@@ -232,14 +232,66 @@ def readItems (bits : Bits) (after : Int) : List DT → Int → Except Err (List
         | .error e => .error e
         | .ok (vs, fp) => .ok (if v = .none then vs else v :: vs, fp)
 
+/-- The dtype list of `Bits._readlist` (bits.py:1172-1186): every dtype is created before anything is read. -/
+def toDTs : List Tok → Except Err (List DT)
+  | [] => .ok []
+  | t :: rest =>
+    match t.toDT with
+    | .error e => .error e
+    | .ok d =>
+      match toDTs rest with
+      | .error e => .error e
+      | .ok ds => .ok (d :: ds)
+
 /-- `Bits._readlist` (bits.py:1167-1187): all dtypes are created first, then `_read_dtype_list`. -/
 def readList (bits : Bits) (pos : Int) (ts : List Tok) : Except Err (List Val × Int) :=
-  match ts.mapM Tok.toDT with
+  match toDTs ts with
   | .error e => .error e
   | .ok ds =>
     match scanStretchy ds false 0 with
     | .error e => .error e
     | .ok after => readItems bits after ds pos
+
+/-! ## SPEC of reading -/
+
+/-- SPEC: what token `t` means on exactly the bits `b` it consumed (whole-value interpretation). -/
+def specDecode (t : Tok) (b : Bits) : Except Err Val :=
+  match t with
+  | .count _ => .ok (.stream b 0)
+  | .fixed k _ => decode k b
+  | .stretchy k => decode k b
+  | .var .ue => match C10.getUE b with
+    | .ok n => .ok (.int n)
+    | .error e => .error e
+  | .var .se => match C10.getSE b with
+    | .ok n => .ok (.int n)
+    | .error e => .error e
+  | .var .uie => match C10.getUIE b with
+    | .ok n => .ok (.int n)
+    | .error e => .error e
+  | .var .sie => match C10.getSIE b with
+    | .ok n => .ok (.int n)
+    | .error e => .error e
+
+/-- SPEC: the number of bits a token asks for when `rem` are left (`none`: the data decide). -/
+def Tok.need (t : Tok) (rem : Int) : Option Int :=
+  match t with
+  | .count n => some n
+  | .fixed k n => some (n * k.mult)
+  | .stretchy .bool => some 1
+  | .stretchy _ => some rem
+  | .var _ => none
+
+/-- SPEC of `readlist` without a stretchy token: the single reads one after the other (`pad` values dropped). -/
+def readSeq (s : Stream) : List Tok → Except Err (List Val × Int)
+  | [] => .ok ([], s.pos)
+  | t :: rest =>
+    match readTok s t with
+    | .error e => .error e
+    | .ok (v, np) =>
+      match readSeq { s with pos := np } rest with
+      | .error e => .error e
+      | .ok (vs, fp) => .ok (if v = .none then vs else v :: vs, fp)
 
 /-! ## non-length-changing mutators of BitArray (contents only; their pos behaviour is "nothing") -/
 
